@@ -7,6 +7,7 @@ import envgen as eg
 
 PID = "C04"
 SIG_NON_OBJECT = "C04.non_object_frame"
+C04_ETYPES = [e for e in eg.ETYPES if e != "raw"]     # raw-identifier field names are C05's subject
 # the frames of the property's own examples, tried against every (P, E) pair first
 REGRESSION = [
     eg.O(("error", "io.systemd.System")),
@@ -50,7 +51,7 @@ def gen_cases(ck):
     n_perm_frames = 8 if quick else 25
     n_dup_frames = 6 if quick else 20
     for pname in eg.PTYPES:
-        for ename in eg.ETYPES:
+        for ename in C04_ETYPES:
             for k, tree in enumerate(REGRESSION):
                 add("reply", tree, {"class": "regression"}, p=pname, e=ename)
                 # member names are decoded JSON strings: "\u0065rror" IS the member `error`
@@ -210,10 +211,10 @@ def main():
         "evaluations": len(cases), "distinct_nontrivial": len(nontriv),
         "traces_validated_against_impl": len(reply_items) + len(proxy_items),
         "case_classes": hist, "impl_outcomes": outcomes, "frame_dimensions": per_dim,
-        "pairs": "%d parameter types x %d error types" % (len(eg.PTYPES), len(eg.ETYPES)),
+        "pairs": "%d parameter types x %d error types" % (len(eg.PTYPES), len(C04_ETYPES)),
         "receive_reply_object_only": list(eg.receive_reply_object_only()),
         "non_object_frames": sum(1 for c, _ in reply_items + proxy_items if not isinstance(c["tree"], eg.Obj)),
-        "parameter_types": sorted(eg.PTYPES), "error_types": sorted(eg.ETYPES), "proxy_methods": sorted(eg.PROXY),
+        "parameter_types": sorted(eg.PTYPES), "error_types": sorted(C04_ETYPES), "proxy_methods": sorted(eg.PROXY),
         "frames_with_error_member": sum(1 for c, _ in reply_items + proxy_items
                                         if isinstance(c["tree"], eg.Obj) and "error" in c["tree"].keys()),
     })
